@@ -3,13 +3,15 @@ html.unescape / the codecs / an independent byte-level reference."""
 import html, warnings
 from bs4 import BeautifulSoup
 from bs4.dammit import UnicodeDammit
+import cdcodecs as cd
 
 RULE = ("smart quotes: exhaustive 32 bytes x {None,ascii,xml,html} x 3 carrier encodings, alone and embedded in "
         "markup; detwingle: every Unicode scalar value as UTF-8 (quick: all, in blocks + every 17th singly; "
         "thorough: all singly), seeded random interleavings of UTF-8 text with every cp1252-defined non-lead byte, "
         "and random arbitrary byte strings (model correspondence only). Non-trivial = contains a byte >= 0x80; "
         "distinct by input bytes.")
-ASSUMPTIONS = ["Python codecs windows-1252 / iso-8859-1 / iso-8859-2 (oracle tables in Gen/Stdlib.v)",
+ASSUMPTIONS = ["Python codecs windows-1252 / iso-8859-1 / iso-8859-2 (oracle tables in Gen/Stdlib.v; windows-1252 and iso-8859-1 are "
+               "also defined in Coq, Model/Codecs.v, proved invertible and compared with the interpreter on every byte and code point)",
                "html.unescape as the un-escaping oracle on the implementation side",
                "the stdlib html.parser tokenizer when validating read_text"]
 
@@ -230,17 +232,80 @@ def detwingle(ctx):
                 ctx.disagree("detwingle ~ Model.SmartQuotes.detwingle", case, g, mv)
 
 
+def codec_relation(ctx):
+    """The library's Windows-1252 tables against the codec (direct oracle: the interpreter's windows-1252, html.unescape),
+    the Coq codecs against the interpreter on every single byte, and UnicodeDammit(data, [carrier]) with no conversion
+    requested against the fully concrete model (Model.Codecs.c_dammit: decoders defined in Coq) on every single byte."""
+    # (a) MS_CHARS: keys exactly 0x80..0x9f; (name, hex) exactly where windows-1252 defines the byte
+    keys = sorted(UnicodeDammit.MS_CHARS)
+    if keys != [bytes([b]) for b in range(0x80, 0xa0)]:
+        ctx.fail({"table": "MS_CHARS"}, "keys are not exactly the bytes 0x80-0x9f", [k.hex() for k in keys], "80..9f", tag="ms-chars-table")
+    for b in range(0x80, 0xa0):
+        ent = UnicodeDammit.MS_CHARS.get(bytes([b]))
+        ch = cp1252(b)
+        ctx.case(("ms-entry", b))
+        if ch is None:
+            ok = isinstance(ent, str) and ent.isascii() and ent != ""
+        else:
+            ok = (isinstance(ent, tuple) and len(ent) == 2 and ent[1] != "" and
+                  all(c in "0123456789abcdefABCDEF" for c in ent[1]) and int(ent[1], 16) == ord(ch) and
+                  html.unescape("&" + ent[0] + ";") == ch)
+        if not ok:
+            ctx.fail({"table": "MS_CHARS", "byte": b}, "entry does not denote the byte's Windows-1252 character "
+                     "(or is not a plain substitute for an undefined byte)", repr(ent), repr(ch), tag="ms-chars-table")
+    # (b) WINDOWS_1252_TO_UTF8: one entry per defined byte >= 0x80; the UTF-8 of its character wherever detwingle can reach it
+    w = UnicodeDammit.WINDOWS_1252_TO_UTF8
+    exp_keys = sorted(b for b in range(0x80, 0x100) if cp1252(b) is not None)
+    if sorted(w) != exp_keys:
+        ctx.fail({"table": "WINDOWS_1252_TO_UTF8"}, "keys are not exactly the bytes >= 0x80 that Windows-1252 defines",
+                 sorted(set(w) ^ set(exp_keys)), [], tag="w1252-table")
+    wrong = [b for b in exp_keys if b in w and w[b] != cp1252(b).encode("utf-8")]
+    ctx.count("w1252_entries_not_utf8_of_character", len(wrong))
+    for b in wrong:
+        if not (0xc2 <= b <= 0xf4):           # a lead byte is copied with its sequence and never looked up
+            ctx.fail({"table": "WINDOWS_1252_TO_UTF8", "byte": b}, "reachable entry is not the UTF-8 encoding of the character",
+                     list(w[b]), list(cp1252(b).encode("utf-8")), tag="w1252-table")
+    ctx.extra_cov["w1252_unreachable_wrong_entries"] = wrong
+    # (c) the Coq codecs on all single bytes / code points
+    cd.sweeps(ctx, names=True, single=True, decode=False, encode=False)
+    # (d) end to end, no conversion requested: every byte, alone and in markup, each carrier the model defines
+    if not ctx.build.model_ok or not cd.chardet_absent():
+        return
+    todo, cmds = [], []
+    for carrier in ("windows-1252", "iso-8859-1", "latin-1", "cp1252"):
+        for b in range(256):
+            for data in (bytes([b]), b"<p>a" + bytes([b]) + b"z</p>"):
+                obs = cd.observe_dammit(data, [carrier], [], [], [], True)
+                if not cd.case_supported(ctx, data, [carrier]):
+                    continue
+                case = {"data_hex": data.hex(), "known": [carrier], "user": [], "exclude": [], "override": [], "is_html": True,
+                        "api": "UnicodeDammit", "concrete": True}
+                ctx.case(("cd-carrier", carrier, data))
+                todo.append((case, obs))
+                cmds.append(cd.dammit_cmd(data, [carrier], [], [], [], True))
+    ctx.count("cd_carrier_cases", len(todo))
+    for (case, obs), mv in zip(todo, ctx.model.run(cmds)):
+        cd.compare_dammit(ctx, case, obs, mv)
+
+
 def run(ctx):
     long_documents(ctx)
     smart_quotes(ctx)
     detwingle(ctx)
+    codec_relation(ctx)
     from props import c19_r4; c19_r4.extra(ctx)      # round 4: call spellings
     ctx.extra_cov["exhaustive"] = True
     ctx.extra_cov["exhaustive_scope"] = "smart-quote sweep 32x4x3 (x2 contexts); all scalar values through detwingle"
 
 
 def replay(ctx, data):
-    f = (data.get("failure") or {}).get("case") or {}
+    f = (data.get("failure") or {}).get("case") or ((data.get("disagreements") or [{}])[0].get("case")) or {}
+    if cd.replay(f):
+        return 1
+    if f.get("table"):
+        print("table entry:", f, "MS_CHARS:", UnicodeDammit.MS_CHARS.get(bytes([f["byte"]])) if "byte" in f else None,
+              "WINDOWS_1252_TO_UTF8:", UnicodeDammit.WINDOWS_1252_TO_UTF8.get(f.get("byte")), "cp1252:", cp1252(f["byte"]) if "byte" in f else None)
+        return 1
     if "byte" in f:
         got, _ = dammit(bytes([f["byte"]]), f.get("spelled", f["carrier"]), f["mode"])
         print("byte=%#x mode=%r carrier=%s -> %r ; cp1252 char %r" % (f["byte"], f["mode"], f["carrier"], got, cp1252(f["byte"])))
